@@ -21,8 +21,10 @@ func init() {
 			"(R4) every constant-bound index/slice in the functions statically reachable from ParseQuery is dominated by a length test implying the bound; " +
 			"(R5) in parseAndOr a condition list is closed successfully only when no operand is outstanding (expectingMore false) or at a closing parenthesis - a clause keyword or the end of input after and/or/not is not a terminator; " +
 			"(R6) the printers never re-tokenise or normalise already printed condition text (Split/Fields/Trim/Replace/case mapping on the result of a nested string()): separators inside quoted tokens are data. " +
+			"(R7) list operands: the parser splits an `in` operand with exactly the inverse of the printer's join (strings.Split on the same separator - not Fields/FieldsFunc/SplitN, which drop or merge elements); " +
+			"(R8) numeric and boolean operands are printed with a representation that parses back to the same value (float64: %g/%v or FormatFloat(.., -1, 64); int64: %d/%v; bool: %t/%v). " +
 			"NOT decided (named in the statement, out of reach for a sound static rule): print->parse->print identity, same-records equivalence, backslash escape symmetry, conditions ending in a parenthesised group.",
-		Rules: []ruleFn{c11R1, c11R2, c11R3, c11R4, c11R5, c11R6},
+		Rules: []ruleFn{c11R1, c11R2, c11R3, c11R4, c11R5, c11R6, c11R7, c11R8},
 	})
 }
 
@@ -498,4 +500,156 @@ func c11R6(c *Ctx, r *Report) {
 	}
 	r.SetFloor(rule, 4)
 	_ = n
+}
+
+// c11R7: Join and Split are inverse on the same separator.
+func c11R7(c *Ctx, r *Report) {
+	const rule = "C11-R7"
+	r.SetFloor(rule, 1)
+	pr := c.Func("database/query.(*stringSliceCondition).string")
+	ps := c.Func("database/query.newStringSliceCondition")
+	if pr == nil || ps == nil {
+		r.Undecided(rule, "database/query.stringSliceCondition", "anchor function missing")
+		return
+	}
+	strConst := func(v ssa.Value) (string, bool) {
+		cst, ok := v.(*ssa.Const)
+		if !ok || cst.Value == nil || cst.Value.Kind() != constant.String {
+			return "", false
+		}
+		return constant.StringVal(cst.Value), true
+	}
+	sep, found := "", false
+	for _, ci := range callsIn(pr, "strings.Join") {
+		if s, ok := strConst(ci.Common().Args[1]); ok && fieldLoadOf(ci.Common().Args[0], "database/query.stringSliceCondition", "value") {
+			sep, found = s, true
+		}
+	}
+	if !found {
+		r.Undecided(rule, fnKey(pr), "the printer does not join the list with a constant separator")
+		return
+	}
+	n := 0
+	eachInstr(ps, func(in ssa.Instruction) {
+		st, ok := in.(*ssa.Store)
+		if !ok {
+			return
+		}
+		fr, ok := fieldOfAddr(st.Addr)
+		if !ok || fr.Owner != "database/query.stringSliceCondition" || fr.Name != "value" {
+			return
+		}
+		for _, l := range c.Leaves(st.Val) {
+			call, isCall := l.(*ssa.Call)
+			if !isCall {
+				continue // the []string handed in through the API
+			}
+			n++
+			cn := calleeName(&call.Call)
+			okSplit := cn == "strings.Split"
+			if okSplit {
+				s2, isC := strConst(call.Call.Args[1])
+				okSplit = isC && s2 == sep
+			}
+			r.Check(okSplit, rule, fnKey(ps)+" / textual list operand is split with the inverse of the printer's join",
+				fmt.Sprintf("strings.Split(v, %q) inverts strings.Join(value, %q)", sep, sep),
+				fmt.Sprintf("the list operand is taken apart with %s, which is not the inverse of strings.Join(value, %q): empty elements are dropped or elements merged, the printed query parses to a different list", cn, sep), c.Pos(call.Pos()))
+		}
+	})
+	if n == 0 {
+		r.Undecided(rule, fnKey(ps), "no parsed list value found")
+	}
+}
+
+// sprintfVerbFor returns the verb fmt.Sprintf applies to the variadic argument that derives from pred.
+func sprintfVerbFor(c *Ctx, fn *ssa.Function, pred func(ssa.Value) bool) (string, ssa.Instruction, bool) {
+	for _, ci := range callsIn(fn, "fmt.Sprintf") {
+		call, ok := ci.(*ssa.Call)
+		if !ok {
+			continue
+		}
+		cst, ok := call.Call.Args[0].(*ssa.Const)
+		if !ok || cst.Value == nil || cst.Value.Kind() != constant.String {
+			continue
+		}
+		format := constant.StringVal(cst.Value)
+		var verbs []string
+		for i := 0; i < len(format); i++ {
+			if format[i] != '%' {
+				continue
+			}
+			j := i + 1
+			for j < len(format) && strings.ContainsRune("+-# 0123456789.", rune(format[j])) {
+				j++
+			}
+			if j < len(format) {
+				if format[j] != '%' {
+					verbs = append(verbs, format[i:j+1])
+				}
+				i = j
+			}
+		}
+		for k := range verbs {
+			el := variadicElem(call, k)
+			if el == nil {
+				continue
+			}
+			if mi, ok := el.(*ssa.MakeInterface); ok {
+				el = mi.X
+			}
+			if pred(unwrapConv(el)) {
+				return verbs[k], call, true
+			}
+		}
+	}
+	return "", nil, false
+}
+
+// c11R8: printed numbers parse back to the same number.
+func c11R8(c *Ctx, r *Report) {
+	const rule = "C11-R8"
+	r.SetFloor(rule, 3)
+	for _, t := range []struct {
+		typ   string
+		verbs []string
+		conv  string
+	}{{"floatCondition", []string{"%g", "%v"}, "strconv.FormatFloat"}, {"intCondition", []string{"%d", "%v"}, "strconv.FormatInt"}, {"boolCondition", []string{"%t", "%v"}, "strconv.FormatBool"}} {
+		fn := c.Func("database/query.(*" + t.typ + ").string")
+		if fn == nil {
+			r.Undecided(rule, "database/query.(*"+t.typ+").string", "anchor function missing")
+			continue
+		}
+		isVal := func(v ssa.Value) bool { return fieldLoadOf(v, "database/query."+t.typ, "value") }
+		cons := fnKey(fn) + " / operand is printed losslessly"
+		if verb, _, ok := sprintfVerbFor(c, fn, isVal); ok {
+			good := false
+			for _, v := range t.verbs {
+				good = good || verb == v
+			}
+			r.Check(good, rule, cons, "printed with "+verb, "the operand is printed with "+verb+": precision or representation is lost and the printed query parses to a different value")
+			continue
+		}
+		decided := false
+		for _, ci := range callsIn(fn, t.conv) {
+			a := ci.Common().Args
+			if !isVal(unwrapConv(a[0])) {
+				continue
+			}
+			decided = true
+			good := true
+			if t.conv == "strconv.FormatFloat" {
+				prec, ok1 := constInt(a[2])
+				bits, ok2 := constInt(a[3])
+				good = ok1 && ok2 && prec == -1 && bits == 64
+			}
+			if t.conv == "strconv.FormatInt" {
+				base, ok1 := constInt(a[1])
+				good = ok1 && base == 10
+			}
+			r.Check(good, rule, cons, "formatted with "+t.conv+" at full precision", "the operand is formatted with reduced precision (or another base): the printed query parses to a different value", c.Pos(ci.Pos()))
+		}
+		if !decided {
+			r.Undecided(rule, cons, "how the operand is printed was not recognised")
+		}
+	}
 }
